@@ -27,6 +27,9 @@ def run_script(desc, mode="proof", sizes=None, pinned=None, native=None, repo=No
 
     try:
         explore(path, S)
+    except NotApplicable as e:
+        err = ("not-applicable", str(e))
+        S.results.clear()
     except Unsupported as e:
         err = ("unsupported", str(e))
     except VerifError as e:
